@@ -68,6 +68,7 @@ void rs_galois_init_tables(void)
     VERIF_YIELD("c_gf1");
     VERIF_YIELD("c_gf4");
     pthread_mutex_unlock(&init_mutex);
+    VERIF_YIELD("gfi_rel");
     return;
   }
   VERIF_YIELD("c_gf1");
@@ -91,6 +92,7 @@ void rs_galois_init_tables(void)
   VERIF_YIELD("c_gf3");
   VERIF_YIELD("c_gf4");
   pthread_mutex_unlock(&init_mutex);
+  VERIF_YIELD("gfi_rel");
 }
 
 void rs_galois_deinit_tables(void)
@@ -111,6 +113,7 @@ void rs_galois_deinit_tables(void)
   }
   VERIF_YIELD("d_gf1");
   pthread_mutex_unlock(&init_mutex);
+  VERIF_YIELD("gfd_rel");
 }
 
 int rs_galois_mult(int x, int y)
